@@ -274,99 +274,99 @@ fi
 #    restarts and panics injected from caller-supplied callbacks?  (probe.rs)
 PROBE_SEED="${VERIF_SEED:-1}"
 PROBE_RUNS="${PROBE_RUNS:-2000}"
-BIN="$SCRATCH/target/release/premise_audit"
-if [ $PROBE -eq 1 ] && [ -x "$BIN" ]; then
+run_probe() {  # $1 = binary, $2 = tag for file names, $3 = label for messages
+  local BIN="$1" TAG="$2" LBL="$3"
   t0=$(date +%s.%N)
-  "$BIN" probe --seed "$PROBE_SEED" --runs "$PROBE_RUNS" >"$SCRATCH/hot.out" 2>"$SCRATCH/hot.err"; hrc=$?
+  "$BIN" probe --seed "$PROBE_SEED" --runs "$PROBE_RUNS" >"$SCRATCH/hot$TAG.out" 2>"$SCRATCH/hot$TAG.err"; hrc=$?
   export PROBE_HOT_S="$(echo "$(date +%s.%N) - $t0" | bc)"
   if [ $hrc -eq 3 ]; then
     # in-batch mismatch: try to reproduce it from the failing run alone in a fresh
     # process, then drop steps greedily while a mismatch persists
-    run="$(sed -n 's/^HISTORY-DEPENDENT seed=[0-9]* run=\([0-9]*\) .*/\1/p' "$SCRATCH/hot.out" | head -1)"
-    nsteps="$(grep -c '^    \[' "$SCRATCH/hot.out")"
+    run="$(sed -n 's/^HISTORY-DEPENDENT seed=[0-9]* run=\([0-9]*\) .*/\1/p' "$SCRATCH/hot$TAG.out" | head -1)"
+    nsteps="$(grep -c '^    \[' "$SCRATCH/hot$TAG.out")"
     mkdir -p "$REPLAY_DIR"
-    replay="$REPLAY_DIR/probe_seed${PROBE_SEED}_run${run}.replay"
+    replay="$REPLAY_DIR/probe${TAG}_seed${PROBE_SEED}_run${run}.replay"
     keep="$(seq -s, 0 $((nsteps-1)))"
-    if "$BIN" probe --seed "$PROBE_SEED" --runs "$PROBE_RUNS" --only-run "$run" --keep "$keep" >"$SCRATCH/min.out" 2>/dev/null; [ $? -eq 3 ]; then
+    if "$BIN" probe --seed "$PROBE_SEED" --runs "$PROBE_RUNS" --only-run "$run" --keep "$keep" >"$SCRATCH/min$TAG.out" 2>/dev/null; [ $? -eq 3 ]; then
       i=$((nsteps-1))
       while [ $i -ge 0 ]; do
         try="$(echo "$keep" | tr ',' '\n' | grep -vx "$i" | paste -sd, -)"
-        if [ -n "$try" ] && "$BIN" probe --seed "$PROBE_SEED" --runs "$PROBE_RUNS" --only-run "$run" --keep "$try" >"$SCRATCH/try.out" 2>/dev/null; [ $? -eq 3 ]; then
-          keep="$try"; cp "$SCRATCH/try.out" "$SCRATCH/min.out"
+        if [ -n "$try" ] && "$BIN" probe --seed "$PROBE_SEED" --runs "$PROBE_RUNS" --only-run "$run" --keep "$try" >"$SCRATCH/try$TAG.out" 2>/dev/null; [ $? -eq 3 ]; then
+          keep="$try"; cp "$SCRATCH/try$TAG.out" "$SCRATCH/min$TAG.out"
         fi
         i=$((i-1))
       done
       { echo "# replay: premise_audit probe --seed $PROBE_SEED --runs $PROBE_RUNS --only-run $run --keep $keep"
-        cat "$SCRATCH/min.out"; } >"$replay"
-      sed 's/^/  /' "$SCRATCH/min.out"
-      note_changed "dynamic probe: a result depends on something other than the call's arguments (minimised to $(echo "$keep" | tr ',' '\n' | wc -l) steps; replay: $replay)"
+        cat "$SCRATCH/min$TAG.out"; } >"$replay"
+      sed 's/^/  /' "$SCRATCH/min$TAG.out"
+      note_changed "dynamic probe$LBL: a result depends on something other than the call's arguments (minimised to $(echo "$keep" | tr ',' '\n' | wc -l) steps; replay: $replay)"
     else
       { echo "# replay: premise_audit probe --seed $PROBE_SEED --runs $((run+1))   (needs the preceding runs' state; not minimised)"
-        cat "$SCRATCH/hot.out"; } >"$replay"
-      sed 's/^/  /' "$SCRATCH/hot.out" | head -60
-      note_changed "dynamic probe: a result depends on the history of earlier runs in the same process (replay: $replay)"
+        cat "$SCRATCH/hot$TAG.out"; } >"$replay"
+      sed 's/^/  /' "$SCRATCH/hot$TAG.out" | head -60
+      note_changed "dynamic probe$LBL: a result depends on the history of earlier runs in the same process (replay: $replay)"
     fi
   elif [ $hrc -ne 0 ]; then
-    tail -5 "$SCRATCH/hot.out" "$SCRATCH/hot.err"
-    die "dynamic probe exited $hrc"
+    tail -5 "$SCRATCH/hot$TAG.out" "$SCRATCH/hot$TAG.err"
+    die "dynamic probe$LBL exited $hrc"
   else
-    "$BIN" probe --seed "$PROBE_SEED" --runs "$PROBE_RUNS" --cold >"$SCRATCH/cold.out" 2>"$SCRATCH/cold.err" || { tail -5 "$SCRATCH/cold.err"; die "dynamic probe (cold pass) failed"; }
-    echo "  $(head -1 "$SCRATCH/hot.out")"
-    echo "  $(head -1 "$SCRATCH/cold.out")"
-    sed -n '/@@DIGEST@@/,$p' "$SCRATCH/hot.out"  >"$SCRATCH/hot.dig"
-    sed -n '/@@DIGEST@@/,$p' "$SCRATCH/cold.out" >"$SCRATCH/cold.dig"
-    [ "$(wc -l <"$SCRATCH/hot.dig")" -gt 100 ] || die "dynamic probe produced no digest"
+    "$BIN" probe --seed "$PROBE_SEED" --runs "$PROBE_RUNS" --cold >"$SCRATCH/cold$TAG.out" 2>"$SCRATCH/cold$TAG.err" || { tail -5 "$SCRATCH/cold$TAG.err"; die "dynamic probe$LBL (cold pass) failed"; }
+    echo "  $(head -1 "$SCRATCH/hot$TAG.out")"
+    echo "  $(head -1 "$SCRATCH/cold$TAG.out")"
+    sed -n '/@@DIGEST@@/,$p' "$SCRATCH/hot$TAG.out"  >"$SCRATCH/hot$TAG.dig"
+    sed -n '/@@DIGEST@@/,$p' "$SCRATCH/cold$TAG.out" >"$SCRATCH/cold$TAG.dig"
+    [ "$(wc -l <"$SCRATCH/hot$TAG.dig")" -gt 100 ] || die "dynamic probe$LBL produced no digest"
     # determinism of the probe itself: the same seed in another process must give the same bytes
-    "$BIN" probe --seed "$PROBE_SEED" --runs "$PROBE_RUNS" >"$SCRATCH/hot2.out" 2>/dev/null
-    "$BIN" probe --seed "$PROBE_SEED" --runs "$PROBE_RUNS" --cold >"$SCRATCH/cold2.out" 2>/dev/null
-    if cmp -s "$SCRATCH/hot.out" "$SCRATCH/hot2.out" && cmp -s "$SCRATCH/cold.out" "$SCRATCH/cold2.out"; then
-      note_ok "dynamic probe: both passes are byte-identical when repeated in a new process (one seed = one execution)"
+    "$BIN" probe --seed "$PROBE_SEED" --runs "$PROBE_RUNS" >"$SCRATCH/hot2$TAG.out" 2>/dev/null
+    "$BIN" probe --seed "$PROBE_SEED" --runs "$PROBE_RUNS" --cold >"$SCRATCH/cold2$TAG.out" 2>/dev/null
+    if cmp -s "$SCRATCH/hot$TAG.out" "$SCRATCH/hot2$TAG.out" && cmp -s "$SCRATCH/cold$TAG.out" "$SCRATCH/cold2$TAG.out"; then
+      note_ok "dynamic probe$LBL: both passes are byte-identical when repeated in a new process (one seed = one execution)"
     else
-      note_changed "dynamic probe: the same seed gave different results in two processes — the tree now contains a nondeterminism source of its own (randomised hashing, addresses, time, ...); replays below may not reproduce"
+      note_changed "dynamic probe$LBL: the same seed gave different results in two processes — the tree now contains a nondeterminism source of its own (randomised hashing, addresses, time, ...); replays below may not reproduce"
     fi
-    if cmp -s "$SCRATCH/hot.dig" "$SCRATCH/cold.dig"; then
-      note_ok "dynamic probe: every call result is a function of its arguments across threads, buffer reuse, restarts and callback panics, and equals the fresh-process reference pass"
+    if cmp -s "$SCRATCH/hot$TAG.dig" "$SCRATCH/cold$TAG.dig"; then
+      note_ok "dynamic probe$LBL: every call result is a function of its arguments across threads, buffer reuse, restarts and callback panics, and equals the fresh-process reference pass"
     else
-      ndis="$(diff "$SCRATCH/hot.dig" "$SCRATCH/cold.dig" | grep -c '^<')"
-      kh="$(diff "$SCRATCH/hot.dig" "$SCRATCH/cold.dig" | sed -n 's/^[<>] \([0-9a-f]\{16\}\) .*/\1/p' | head -1)"
+      ndis="$(diff "$SCRATCH/hot$TAG.dig" "$SCRATCH/cold$TAG.dig" | grep -c '^<')"
+      kh="$(diff "$SCRATCH/hot$TAG.dig" "$SCRATCH/cold$TAG.dig" | sed -n 's/^[<>] \([0-9a-f]\{16\}\) .*/\1/p' | head -1)"
       P="$BIN probe --seed $PROBE_SEED --runs $PROBE_RUNS"
       hash_of() { sed -n "s/^$kh \\([0-9a-f]\\{16\\}\\)\$/\\1/p" "$1" | head -1; }
-      hot_rh="$(hash_of "$SCRATCH/hot.dig")"; cold_rh="$(hash_of "$SCRATCH/cold.dig")"
+      hot_rh="$(hash_of "$SCRATCH/hot$TAG.dig")"; cold_rh="$(hash_of "$SCRATCH/cold$TAG.dig")"
       # ground truth for that key: the lone call in a fresh process
-      $P --cold --cold-window "$kh:0" --dump-key "$kh" >"$SCRATCH/lone.out" 2>/dev/null
-      lone_rh="$(sed -n '/@@DIGEST@@/,/@@DUMP@@/p' "$SCRATCH/lone.out" | hash_of /dev/stdin)"
+      $P --cold --cold-window "$kh:0" --dump-key "$kh" >"$SCRATCH/lone$TAG.out" 2>/dev/null
+      lone_rh="$(sed -n '/@@DIGEST@@/,/@@DUMP@@/p' "$SCRATCH/lone$TAG.out" | hash_of /dev/stdin)"
       mkdir -p "$REPLAY_DIR"
-      replay="$REPLAY_DIR/probe_seed${PROBE_SEED}_key${kh}.replay"
+      replay="$REPLAY_DIR/probe${TAG}_seed${PROBE_SEED}_key${kh}.replay"
       minimised="not minimised; "
       {
         if [ -n "$lone_rh" ] && [ "$hot_rh" != "$lone_rh" ]; then
           # the multi-thread history deviates from the lone call: replay its run alone, drop steps greedily
-          $P --dump-key "$kh" | sed -n '/@@DUMP@@/,$p' >"$SCRATCH/hot.dump"
-          run="$(sed -n 's/^first-at run \([0-9]*\) step \([0-9]*\) .*/\1/p' "$SCRATCH/hot.dump" | head -1)"
-          step="$(sed -n 's/^first-at run \([0-9]*\) step \([0-9]*\) .*/\2/p' "$SCRATCH/hot.dump" | head -1)"
+          $P --dump-key "$kh" | sed -n '/@@DUMP@@/,$p' >"$SCRATCH/hot$TAG.dump"
+          run="$(sed -n 's/^first-at run \([0-9]*\) step \([0-9]*\) .*/\1/p' "$SCRATCH/hot$TAG.dump" | head -1)"
+          step="$(sed -n 's/^first-at run \([0-9]*\) step \([0-9]*\) .*/\2/p' "$SCRATCH/hot$TAG.dump" | head -1)"
           keep="$(seq -s, 0 "$step")"
-          if $P --only-run "$run" --keep "$keep" --expect "$kh:$lone_rh" >"$SCRATCH/min.out" 2>/dev/null; [ $? -eq 3 ]; then
+          if $P --only-run "$run" --keep "$keep" --expect "$kh:$lone_rh" >"$SCRATCH/min$TAG.out" 2>/dev/null; [ $? -eq 3 ]; then
             i=$((step-1))   # the last kept step is the call under test: never dropped
             while [ $i -ge 0 ]; do
               try="$(echo "$keep" | tr ',' '\n' | grep -vx "$i" | paste -sd, -)"
-              if $P --only-run "$run" --keep "$try" --expect "$kh:$lone_rh" >"$SCRATCH/try.out" 2>/dev/null; [ $? -eq 3 ]; then
-                keep="$try"; cp "$SCRATCH/try.out" "$SCRATCH/min.out"
+              if $P --only-run "$run" --keep "$try" --expect "$kh:$lone_rh" >"$SCRATCH/try$TAG.out" 2>/dev/null; [ $? -eq 3 ]; then
+                keep="$try"; cp "$SCRATCH/try$TAG.out" "$SCRATCH/min$TAG.out"
               fi
               i=$((i-1))
             done
             minimised="minimised to $(echo "$keep" | tr ',' '\n' | wc -l) steps; "
             echo "# replay: premise_audit probe --seed $PROBE_SEED --runs $PROBE_RUNS --only-run $run --keep $keep --expect $kh:$lone_rh"
-            cat "$SCRATCH/min.out"
+            cat "$SCRATCH/min$TAG.out"
           else
             echo "# replay: premise_audit probe --seed $PROBE_SEED --runs $PROBE_RUNS --dump-key $kh   (needs the preceding runs' state)"
-            cat "$SCRATCH/hot.dump"
+            cat "$SCRATCH/hot$TAG.dump"
           fi
         else
           # the reference pass deviates from the lone call: shrink the window of preceding calls
           n=1; found=""
           while [ $n -le 65536 ]; do
-            $P --cold --cold-window "$kh:$n" >"$SCRATCH/win.out" 2>/dev/null
-            w_rh="$(sed -n '/@@DIGEST@@/,$p' "$SCRATCH/win.out" | hash_of /dev/stdin)"
+            $P --cold --cold-window "$kh:$n" >"$SCRATCH/win$TAG.out" 2>/dev/null
+            w_rh="$(sed -n '/@@DIGEST@@/,$p' "$SCRATCH/win$TAG.out" | hash_of /dev/stdin)"
             if [ -n "$w_rh" ] && [ "$w_rh" != "$lone_rh" ]; then found=$n; break; fi
             n=$((n*2))
           done
@@ -374,8 +374,8 @@ if [ $PROBE -eq 1 ] && [ -x "$BIN" ]; then
             lo=$((found/2)); hi=$found     # smallest window in (lo, hi] that still deviates
             while [ $((hi-lo)) -gt 1 ]; do
               mid=$(((lo+hi)/2))
-              $P --cold --cold-window "$kh:$mid" >"$SCRATCH/win.out" 2>/dev/null
-              w_rh="$(sed -n '/@@DIGEST@@/,$p' "$SCRATCH/win.out" | hash_of /dev/stdin)"
+              $P --cold --cold-window "$kh:$mid" >"$SCRATCH/win$TAG.out" 2>/dev/null
+              w_rh="$(sed -n '/@@DIGEST@@/,$p' "$SCRATCH/win$TAG.out" | hash_of /dev/stdin)"
               if [ -n "$w_rh" ] && [ "$w_rh" != "$lone_rh" ]; then hi=$mid; else lo=$mid; fi
             done
             minimised="minimised to $((hi+1)) consecutive single-thread calls; "
@@ -388,11 +388,23 @@ if [ $PROBE -eq 1 ] && [ -x "$BIN" ]; then
           fi
         fi
         echo "## the lone call in a fresh process:"
-        sed -n '/@@DUMP@@/,$p' "$SCRATCH/lone.out"
+        sed -n '/@@DUMP@@/,$p' "$SCRATCH/lone$TAG.out"
       } >"$replay" 2>/dev/null
       sed 's/^/  /' "$replay" | cut -c1-400
-      note_changed "dynamic probe: the multi-thread history and the fresh-process reference pass disagree on $ndis key(s) (${minimised}replay: $replay)"
+      note_changed "dynamic probe$LBL: the multi-thread history and the fresh-process reference pass disagree on $ndis key(s) (${minimised}replay: $replay)"
     fi
+  fi
+}
+if [ $PROBE -eq 1 ] && [ -x "$SCRATCH/target/release/premise_audit" ]; then
+  run_probe "$SCRATCH/target/release/premise_audit" "" ""
+  # the same probe against the library built with --no-default-features
+  # (no smawk / unicode-linebreak / unicode-width: the properties quantify over both sets)
+  if ( cd "$SCRATCH/crate" && CARGO_TARGET_DIR="$SCRATCH/target_nd" cargo build --release --offline --no-default-features ) >"$SCRATCH/build_nd.log" 2>&1; then
+    run_probe "$SCRATCH/target_nd/release/premise_audit" "_nodefault" " [no default features]"
+  else
+    tail -20 "$SCRATCH/build_nd.log"
+    [ $changed -eq 1 ] || die "scratch crate did not build with --no-default-features"
+    echo "  (scratch crate did not build with --no-default-features; second probe skipped)"
   fi
 elif [ $PROBE -eq 0 ]; then
   echo "  (dynamic probe skipped: --no-probe)"
@@ -439,6 +451,7 @@ def first(path):
     try: return open(path).readline().strip()
     except OSError: return ""
 hot = first(os.path.join(scratch, "hot.out"))
+hot_nd = first(os.path.join(scratch, "hot_nodefault.out"))
 stats = {k: int(v) for k, v in re.findall(r'(\w+) (\d+)', hot) if k not in ("seed",)}
 census = ""
 try:
@@ -472,6 +485,7 @@ rep = {
                       "note": "the library contains no synchronisation, I/O or timer call, so whole calls are the only unit a scheduler can order"},
     "runs_per_hour_at_this_rate": int(int(runs) * 3600 / max(0.05, float(os.environ.get("PROBE_HOT_S", "0.3")))),
   },
+  "dynamic_probe_no_default_features": ({k: int(v) for k, v in re.findall(r'(\w+) (\d+)', hot_nd) if k != "seed"} or "not run"),
   "miri_pass": ({"executions": int(miri_ok)} if miri == "1" else "not run (pass --miri)"),
 }
 os.makedirs(os.path.dirname(out) or ".", exist_ok=True)
